@@ -138,6 +138,10 @@ func runByz(e *Env) {
 		cfg.Events.DisableSchemaEvents = tp.Chance(1, 2)
 		k.Fault("byz.event-classes-disabled")
 	}
+	if !e.NoFaults && ctrl && tp.Chance(1, 25) {
+		cl.LocalWithoutAddress = true
+		k.Fault("byz.local-row-without-address")
+	}
 	if !e.NoFaults && ctrl && tp.Chance(1, 3) {
 		// (without a control connection - an internal test switch, not a public option -
 		// the session has nothing to handle events with)
